@@ -4,9 +4,8 @@
   executeChecks, and the *wiring* of an issue site: which of the message sources the code that
   raises the issue hands to FinalizeIssue.
 
-  Transcribed after the proposed patches pending/C18-finalize-config-fallback.diff (a nil config
-  falls back to the global configuration), pending/C18-element-parse-context.diff and
-  pending/C18-reflect-variadic-context.diff (the per-parse context reaches nested schemas).
+  Transcribed after the fixes 79de057 (a nil config falls back to the global configuration), 3d47918 and
+  9a0fec3 (the per-parse context reaches nested schemas), dbf0311 (message functions).
 -/
 namespace Gozod.Msg
 
@@ -146,5 +145,123 @@ def Site.winnerSilent (s : Site) (cfg silent : SrcSet) : String :=
   let eff := cfg.diff silent
   let w := siteMessage (if silent.check then s.passesSilentCheck else s.passes) eff
   if w = "d" then s.base else w
+
+/-! ## Round 4: the static catalogue of issue sites, issue-dependent maps, nesting -/
+
+/-- one call in the library's source that creates an issue or reaches FinalizeIssue (regenerated by the go/ast
+    translator harness/cmd/c18/sites.go into `Gen/IssueSites.lean`).
+    * `cls`  "finalize" (FinalizeIssue itself) | "helper" (a function of internal/issues that reaches it, classified through
+             the summary derived from ITS source) | "raw" (a raw issue is built and flows to a finaliser elsewhere) |
+             "nested" (a nested schema's Parse: does the caller's context travel with it?) |
+             "ctxcopy" (a ParseContext built field by field from the caller's: is the Error map among the fields?)
+    * `ctx`  "caller" | "nil" | "fresh" | "unknown" | "-"      what is handed to FinalizeIssue as the ParseContext
+    * `cfg`  "fallback" (nil → core.Config()) | "global" | "param" | "unknown" | "-"
+    * `inst` "set" | "unset" | "flow" | "-"                    the raising schema / check instance on the raw issue
+    * `msg`  "empty" | "preset" | "flow" | "-"                 a message written before the chain runs
+    * `reached` the leaves of the behavioural catalogue whose issue this very call finalised (captured at run time) -/
+structure IssueSite where
+  key : String      -- file:func:callee#k
+  gkey : String     -- file:func:callee   (the key of the gap list; stable under line shifts)
+  line : Nat
+  inIssuesPkg : Bool
+  cls : String
+  code : String
+  param : String
+  ctx : String
+  cfg : String
+  inst : String
+  msg : String
+  reached : List String
+  deriving Repr, DecidableEq
+
+def IssueSite.reaches (s : IssueSite) : Bool := s.cls == "finalize" || s.cls == "helper"
+
+/-- the sources the call does NOT hand on (check messages are applied by executeChecks before any of these calls).
+    The helpers of internal/issues without an instance parameter are charged to their callers, not to themselves. -/
+def IssueSite.drops (s : IssueSite) : SrcSet :=
+  if s.msg == "preset" then ⟨false, true, true, true, true⟩ else
+  let cfgBad := s.reaches && !(s.cfg == "fallback" || s.cfg == "global" || s.cfg == "param")
+  ⟨false,
+   s.reaches && s.inst == "unset" && !s.inIssuesPkg,
+   (s.reaches || s.cls == "nested" || s.cls == "ctxcopy") && !(s.ctx == "caller"),
+   cfgBad, cfgBad⟩
+
+/-- the sources FinalizeIssue sees at a site that drops `d` -/
+def dropSources {ρ : Type} (d : SrcSet) (s : Sources ρ) : Sources ρ :=
+  { rawMsg := if d.check then "" else s.rawMsg
+    inst := if d.schema then none else s.inst
+    parse := if d.parse then none else s.parse
+    custom := if d.custom then none else s.custom
+    locale := if d.locale then none else s.locale
+    dflt := s.dflt }
+
+/-- features of a raw issue that the issue-dependent maps of the run look at -/
+structure RawFeat where
+  code : String
+  inputIsString : Bool
+  hasOrigin : Bool
+  deriving Repr, DecidableEq
+
+/-- does a map of the given kind answer for the issue?  (harness/cmd/c18/deep.go depAnswers)
+    K always · T only invalid_type · N every code but invalid_type · I only for a string input · O only with an origin ·
+    Z only too_small / too_big · F only invalid_format · E never -/
+def depAnswers (kind : Char) (f : RawFeat) : Bool :=
+  if kind == 'K' then true
+  else if kind == 'T' then f.code == "invalid_type"
+  else if kind == 'N' then !(f.code == "invalid_type")
+  else if kind == 'I' then f.inputIsString
+  else if kind == 'O' then f.hasOrigin
+  else if kind == 'Z' then f.code == "too_small" || f.code == "too_big"
+  else if kind == 'F' then f.code == "invalid_format"
+  else false
+
+/-- an issue-dependent error map: its tag when it answers, "" when it declines; '-' = source not configured -/
+def depMap (kind : Char) (tag : String) : Option (ErrMap RawFeat) :=
+  if kind == '-' then none else some (fun f => if depAnswers kind f then tag else "")
+
+/-- the five sources of a `dep` cell; `spec` = the map kinds of c,s,p,g,l -/
+def depSources (spec : List Char) (f : RawFeat) : Sources RawFeat :=
+  let k := fun i => spec.getD i '-'
+  { rawMsg := app (depMap (k 0) "c") f
+    inst := depMap (k 1) "s"
+    parse := depMap (k 2) "p"
+    custom := depMap (k 3) "g"
+    locale := depMap (k 4) "l"
+    dflt := fun _ => "d" }
+
+/-- complement within the five sources -/
+def SrcSet.compl (a : SrcSet) : SrcSet := ⟨!a.check, !a.schema, !a.parse, !a.custom, !a.locale⟩
+
+/-- model of a `dep` cell: FinalizeIssue on the sources the site passes -/
+def Site.winnerDep (s : Site) (spec : List Char) (f : RawFeat) : String :=
+  let silentCheck := (spec.getD 0 '-') != '-' && !(depAnswers (spec.getD 0 '-') f)
+  let passes := if silentCheck then s.passesSilentCheck else s.passes
+  let w := finalize (dropSources passes.compl (depSources spec f)) f
+  if w = "d" then s.base else w
+
+/-- what the property demands of a `dep` cell: the first configured source that has an answer for the issue -/
+def specDep (spec : List Char) (f : RawFeat) : String :=
+  let a := fun (i : Nat) (tag : String) => if depAnswers (spec.getD i '-') f then tag else ""
+  firstNonEmpty [a 0 "c", a 1 "s", a 2 "p", a 3 "g", a 4 "l"] "d"
+
+/-! ### nesting: a position (wrapper) parses the schema below it and re-reports its issues -/
+
+/-- how a container position treats the issue of the schema nested in it:
+    `forwardsCtx` the nested Parse receives the caller's context (else the per-parse map is lost below this position);
+    re-reporting keeps the message the nested parse resolved (the issue comes back finalised, its Message non-empty,
+    and FinalizeIssue returns a non-empty `iss.Message` unchanged). -/
+structure Position where
+  name : String
+  forwardsCtx : Bool
+  deriving Repr, DecidableEq
+
+/-- the message of a leaf's issue below a chain of positions (outermost first): each position hands the sources on to the
+    parse below it (dropping the per-parse map when it does not forward the context) and re-finalises what comes back
+    with the message preset. -/
+def nestedMessage {ρ : Type} (leafDrops : SrcSet) : List Position → Sources ρ → ρ → String
+  | [], s, iss => finalize (dropSources leafDrops s) iss
+  | p :: ps, s, iss =>
+    let below := nestedMessage leafDrops ps (if p.forwardsCtx then s else { s with parse := none }) iss
+    finalize { s with rawMsg := below } iss
 
 end Gozod.Msg
